@@ -1,3 +1,4 @@
+import _pickle
 import pickle
 
 import fickling.hook as hook
@@ -7,10 +8,15 @@ from fickling.analysis import Severity
 
 class FicklingContextManager:
     def __init__(self, max_acceptable_severity=Severity.LIKELY_SAFE):
-        self.original_pickle_load = pickle.load
         self.max_acceptable_severity = max_acceptable_severity
+        self._saved_entry_points = []
 
     def __enter__(self):
+        # Remember every pickle entry point fickling may replace (see fickling.hook) as it is bound
+        # right now, so that leaving the block restores exactly the protection in force on entry
+        self._saved_entry_points.append(
+            (pickle.load, pickle.loads, _pickle.load, _pickle.loads, pickle.Unpickler)
+        )
         # Modify the `hook_pickle_load` function to use the imported loader
         wrapped_load = lambda file, *args, **kwargs: loader.load(  # noqa
             file, max_acceptable_severity=self.max_acceptable_severity
@@ -19,7 +25,13 @@ class FicklingContextManager:
         return self
 
     def __exit__(self, exc_type, exc_val, exc_tb):
-        pickle.load = self.original_pickle_load
+        (
+            pickle.load,
+            pickle.loads,
+            _pickle.load,
+            _pickle.loads,
+            pickle.Unpickler,
+        ) = self._saved_entry_points.pop()
 
 
 def check_safety():
